@@ -178,6 +178,88 @@ def write_evidence(ctx: Ctx, proof: dict, violations: int, assumptions: list[str
         json.dump(ev, f, indent=1, default=str)
 
 
+def replay_target(payload: dict) -> tuple[str | None, Any]:
+    """(suite, case) a replay payload is about: the violation, or the first disagreement of a `not-shown` payload.
+    The case is None when the payload records no input (a build / proof problem): nothing can be re-run then."""
+    first = payload.get("first_disagreement") or {}
+    case = payload.get("case") or first.get("case")
+    return payload.get("suite") or first.get("suite"), case
+
+
+NOT_REPRODUCED = ("the recorded case does not fail on this tree when run on its own; if the tree is the one of the run, the "
+                  "failure depends on what ran before the case in that process: reproduce_cmd of the replay file repeats it")
+
+
+def replay_result(ctx: Ctx, **extra: Any) -> dict:
+    """What every `replay` returns: the outcome of re-running the case on the current tree, nothing remembered."""
+    fails = bool(ctx.oracle_failures or ctx.disagreements)
+    return {**extra, "disagreements": ctx.disagreements, "unstable": ctx.unstable, "oracle_failures": ctx.oracle_failures,
+            "fails": fails, **({} if fails else {"note": NOT_REPRODUCED})}
+
+
+def replay_nothing(payload: dict, why: str = "the payload records no input case (build / proof problem)") -> dict:
+    return {"fails": False, "not_rerun": True, "note": f"{why}: reproduce with {payload.get('reproduce_cmd', 'the check itself')}"}
+
+
+def rerun_history(ctx: Ctx, payload: dict, case: Any, prefix: Callable[[Ctx], Any]) -> dict:
+    """For suites whose cases share state through the library (caches filled by earlier cases, long-lived objects), so
+    that a recorded case may pass on its own although it failed in the run: `prefix(c)` runs the check up to and
+    including the suite of the case on a scratch context with the recorded seed and tier, which re-creates the history of
+    the run exactly; what is recorded there for this very case (the original one, if it was shrunk) is copied to ctx.
+    To be called BEFORE the case is run on its own (that run would itself leave state behind). Returns what to add to
+    the replay result."""
+    if payload.get("shrinking"):
+        return {}           # the shrinker replays inside the process of the run: the history is there already
+    if "seed" not in payload or "tier" not in payload:
+        return {"history_dependent": True,
+                "history": "not re-created: the payload does not say which run (seed, tier) the case is from"}
+    scratch = Ctx(ctx.pid, payload["tier"], int(payload["seed"]))
+    prefix(scratch)
+    key = jhash(payload.get("case_original") or case)
+    ctx.oracle_failures += [f for f in scratch.oracle_failures if jhash(f["case"]) == key]
+    ctx.disagreements += [d for d in scratch.disagreements if jhash(d["case"]) == key]
+    ctx.unstable += [d for d in scratch.unstable if jhash(d["case"]) == key]
+    return {"history": f"the suites up to the one of the case were run again (seed {payload['seed']}, tier {payload['tier']}): "
+                       f"{len(scratch.oracle_failures)} failures in all, {len(ctx.oracle_failures)} for this case"
+                       + ("" if ctx.oracle_failures or ctx.disagreements else "; then the case on its own")}
+
+
+def tree_fingerprint() -> str | None:
+    """identifies the working tree under examination (commit + uncommitted changes), None if it cannot be told"""
+    import subprocess
+
+    try:
+        out = [subprocess.run(["git", "-C", env.REPO, *args], stdout=subprocess.PIPE, stderr=subprocess.DEVNULL, timeout=60,
+                              check=True).stdout for args in (["rev-parse", "HEAD"], ["status", "--porcelain"], ["diff", "HEAD"])]
+    except Exception:  # noqa: BLE001
+        return None
+    return out[0].decode().strip()[:12] + "+" + hashlib.sha1(out[1] + out[2]).hexdigest()[:12]
+
+
+def judge_replay(ctx: Ctx, classifiers: dict, payload: dict, rep: dict) -> dict:
+    """What `check.py --replay` makes of the outcome of mod.replay, by the rules of a run: failures that are listed
+    findings are not violations; float-unstable disagreements are tolerated one by one (the run reports their rate);
+    a case that passes on the very tree of the run depends on the history of that run."""
+    if ctx.oracle_failures:
+        violations = classify(ctx, classifiers)
+        if ctx.known_hits:
+            rep["known_findings"] = {k: v["count"] for k, v in ctx.known_hits.items()}
+        if rep.get("fails") and not violations and not ctx.disagreements:
+            rep.update(fails=False, note="only listed findings (known_findings.json) occur, as in a run that exits 0")
+    first = payload.get("first_disagreement") or {}
+    if not rep.get("fails") and payload.get("kind") == "not-shown" and ctx.unstable and \
+            float(first.get("margin", "inf")) < UNSTABLE_MARGIN:
+        # a run tolerates such cases while they are rare: what it reported is their rate, which one case cannot show
+        rep.update(rate_dependent=True, note="the recorded float-unstable disagreement occurs again; one such case is tolerated, the "
+                   f"run reported that they exceeded 0.2% of its evaluations; reproduce with: {payload.get('reproduce_cmd')}")
+    elif not rep.get("fails") and not rep.get("known_findings") and not rep.get("not_rerun") and \
+            payload.get("tree") and payload["tree"] == tree_fingerprint():
+        rep.update(history_dependent=True,
+                   note="the tree is the one of the run and the case does not fail when replayed: the failure depends on what "
+                        f"ran before it in that process; reproduce with: {payload.get('reproduce_cmd')}")
+    return rep
+
+
 def _replay_fails(mod, pid: str, tier: str, seed: int, payload: dict) -> bool:
     try:
         c2 = Ctx(pid, tier, seed)
@@ -203,7 +285,8 @@ def shrink(mod, pid: str, tier: str, seed: int, violations: list[dict], budget_s
     chosen = None
     for v in cands[:8]:
         info["tried"] += 1
-        if _replay_fails(mod, pid, tier, seed, {"property": pid, "kind": "oracle", "case": v["case"]}):
+        if _replay_fails(mod, pid, tier, seed, {"property": pid, "kind": "oracle", "suite": v["suite"], "case": v["case"],
+                                                "seed": seed, "tier": tier, "shrinking": True}):
             chosen = v
             break
         if time.time() - t0 > budget_s / 2:
@@ -226,7 +309,8 @@ def shrink(mod, pid: str, tier: str, seed: int, violations: list[dict], budget_s
                     continue
                 info["tried"] += 1
                 c2 = dict(case, specs=trial)
-                if _replay_fails(mod, pid, tier, seed, {"property": pid, "kind": "oracle", "case": c2}):
+                if _replay_fails(mod, pid, tier, seed, {"property": pid, "kind": "oracle", "suite": chosen["suite"], "case": c2,
+                                                        "seed": seed, "tier": tier, "shrinking": True}):
                     specs = trial
                     case = c2
                     changed = True
@@ -237,4 +321,32 @@ def shrink(mod, pid: str, tier: str, seed: int, violations: list[dict], budget_s
     out = dict(chosen, case=case)
     if n0 != len(specs):
         out["case_original"] = chosen["case"]
+        # the replays above ran inside the process of the run, with whatever state the earlier cases left behind; the
+        # shrunk case is kept only if it also fails in a process of its own, where the replay file will be used
+        info["fresh_process"] = _fails_in_fresh_process(pid, tier, seed, out)
+        if not info["fresh_process"]:
+            info["removed"] = 0
+            info["status"] += ", but the shrunk case does not fail in a process of its own: the original case is kept"
+            return chosen, info
     return out, info
+
+
+def _fails_in_fresh_process(pid: str, tier: str, seed: int, v: dict) -> bool:
+    """`check.py <pid> --replay` of the violation in a new process, on the same tree"""
+    import subprocess
+    import sys
+    import tempfile
+
+    payload = {"property": pid, "kind": "oracle", "suite": v["suite"], "case": v["case"], "seed": seed, "tier": tier,
+               "case_original": v.get("case_original")}
+    with tempfile.NamedTemporaryFile("w", suffix=".json", delete=False) as f:
+        json.dump(payload, f, default=str)
+    try:
+        p = subprocess.run([sys.executable, os.path.join(env.VERIF, "check.py"), pid, "--tier", tier, "--replay", f.name, "--no-build"],
+                           env=dict(os.environ, VERIF_REPO=env.REPO, VERIF_SEED=str(seed)), stdout=subprocess.PIPE,
+                           stderr=subprocess.DEVNULL, timeout=600)
+        return p.returncode == 1 and b'"fails": true' in p.stdout
+    except Exception:  # noqa: BLE001
+        return False
+    finally:
+        os.unlink(f.name)
